@@ -104,54 +104,60 @@ def _agg_fields(s):
 
 def r3(ctx):
     f = ctx.facts
+    from .common import ip_trace, variant_edges, dominated_by_any
     ie = f.body(IE)
     ctx.touch(ie)
     put = [t for _, t in ie.calls() if t["f"].get("name") == "put"][0]
     stored = {origin_summary(o) for o in trace(ie, put["a"][1])}
-    evs = [(bi, s) for bi, si, s in ie.statements() if s["k"] == "assign" and s["r"][0] == "agg" and s["r"][1][0] == "adt" and s["r"][1][1] == "sync::Event"]
-    kinds = {s["r"][1][2] for _, s in evs}
-    ctx.check(kinds == {"LocalInsert", "RemoteInsert"}, "C12.R3", IE, "builds-local-and-remote-events", "%s" % sorted(kinds), ie.sp)
+    # the event may be built in insert_entry itself or in a private helper it calls
+    scope = f.local_callees(IE, depth=2, prefix="sync::Replica")
+    ctx.touch(*scope)
+
+    def ipo(body, op, **kw):
+        """origins mapped back into insert_entry's frame: set of (summary, field path)"""
+        out = set()
+        for sb_, o in ip_trace(f, body, op, scope, **kw):
+            nm = origin_summary(o)
+            if o.kind == "arg":
+                nm = "upvar:%s" % o.data[1] if sb_ is not ie else nm   # parameters of the async fn are captured
+            out.add((nm, mir.field_path(o)))
+        return out
+    evs = []
+    for body in scope:
+        for bi, si, s in body.statements():
+            if s["k"] == "assign" and s["r"][0] == "agg" and s["r"][1][0] == "adt" and s["r"][1][1] == "sync::Event":
+                evs.append((body, bi, s))
+    kinds = {s["r"][1][2] for _, _, s in evs}
+    ctx.check(kinds == {"LocalInsert", "RemoteInsert"} and len(evs) == 2, "C12.R3", IE, "builds-local-and-remote-events", "%s" % sorted(kinds), ie.sp)
     IOr = [v["name"] for v in f.adt("sync::InsertOrigin")["variants"]]
-    osw = None
-    for bi, blk in enumerate(ie.blocks):
-        tt = blk["t"]
-        if tt["k"] == "switch" and tt["d"][0] in ("copy", "move") and not mir.is_noise(tt["x"]):
-            ds = ie.defs().get(tt["d"][1]["l"], [])
-            if len(ds) == 1 and ds[0][2] == "assign" and ds[0][3]["r"][0] == "discr" and ie.locals[ds[0][3]["r"][1]["l"]]["ty"].endswith("sync::InsertOrigin"):
-                osw = (bi, tt)
-    if not osw:
-        raise mir.AnchorMissing("insert_entry: match on the origin not found")
-    oedges = {IOr[v]: (osw[0], tb) for v, tb in osw[1]["v"]}
-    for n in IOr:
-        if n not in oedges:
-            oedges[n] = (osw[0], osw[1]["o"])
-    for bi, s in evs:
+    for body, bi, s in evs:
         kind = s["r"][1][2]
         flds = _agg_fields(s)
         arm = "Local" if kind == "LocalInsert" else "Sync"
-        we = oedges[arm]
-        ctx.check(ie.edge_dominates(we[0], we[1], bi), "C12.R3", IE, "%s-only-under-origin-%s" % (kind, arm), "event kind matches the origin arm", s["sp"])
-        ent = {origin_summary(o) for o in trace(ie, flds["entry"])}
+        es = variant_edges(body, lambda ty: ty.endswith("sync::InsertOrigin"), IOr.index(arm))
+        ctx.check(dominated_by_any(body, es, bi), "C12.R3", IE, "%s-only-under-origin-%s" % (kind, arm), "event kind matches the origin arm (in %s)" % body.path, s["sp"])
+        ent = {x[0] for x in ipo(body, flds["entry"])}
         ctx.check(ent == stored, "C12.R3", IE, "%s.entry-is-the-stored-entry" % kind, "event entry %s / stored %s" % (sorted(ent), sorted(stored)), s["sp"])
         if kind == "RemoteInsert":
             for fld in ("from", "remote_content_status"):
-                o = trace(ie, flds[fld])
-                ok = all(((x.kind == "arg" and x.data[1] == "origin") or (x.kind == "upvar" and x.data == "origin")) and fld in mir.field_path(x) for x in o) and bool(o)
-                ctx.check(ok, "C12.R3", IE, "RemoteInsert.%s-from-origin" % fld, "%s" % [(origin_summary(x), mir.field_path(x)) for x in o], s["sp"])
-            sd = trace(ie, flds["should_download"], through_calls=False)
+                o = ipo(body, flds[fld])
+                ok = bool(o) and all(nm in ("upvar:origin", "arg:origin") and fld in fp for nm, fp in o)
+                ctx.check(ok, "C12.R3", IE, "RemoteInsert.%s-from-origin" % fld, "%s" % sorted(o), s["sp"])
+            sd = trace(body, flds["should_download"], through_calls=False)
             ok = False
             for x in sd:
                 if x.kind == "call" and callee_matches(x.data, r"store::DownloadPolicy::matches$"):
-                    ent2 = {origin_summary(o) for o in trace(ie, x.data["a"][1], view=VIEW_ENTRY)}
-                    from_store = any(o.kind == "call" and o.data["f"].get("name") == "get_download_policy" for o in leaves(ie, x.data["a"][0], expand_calls=False)) or \
-                        any(o.kind == "call" and o.data["f"].get("name") in ("unwrap_or_default",) for o in trace(ie, x.data["a"][0], through_calls=False))
+                    ent2 = {y[0] for y in ipo(body, x.data["a"][1], view=VIEW_ENTRY)}
+                    from_store = any(o.kind == "call" and o.data["f"].get("name") == "get_download_policy" for o in leaves(body, x.data["a"][0], expand_calls=False)) or \
+                        any(o.kind == "call" and o.data["f"].get("name") in ("unwrap_or_default",) for o in trace(body, x.data["a"][0], through_calls=False))
                     ok = from_store and ent2 == stored
             ctx.check(ok, "C12.R3", IE, "RemoteInsert.should_download=policy.matches(entry)", "should_download derives from DownloadPolicy::matches(stored policy, this entry)", s["sp"])
-    gp = [t for _, t in ie.calls() if t["f"].get("name") == "get_download_policy"]
+    gp = [(body, t) for body in scope for _, t in body.calls() if t["f"].get("name") == "get_download_policy"]
     if len(gp) == 1:
-        ns = leaves(ie, gp[0]["a"][1], expand_calls=False)
+        body, t = gp[0]
+        ns = leaves(body, t["a"][1], expand_calls=False)
         ok = bool(ns) and all((o.kind == "call" and o.data["f"].get("name") == "id") or o.kind in ("upvar", "arg") for o in ns)
-        ctx.check(ok, "C12.R3", IE, "policy-of-this-namespace", "get_download_policy(&self.id()): %s" % [origin_summary(o) for o in ns], gp[0]["sp"])
+        ctx.check(ok, "C12.R3", IE, "policy-of-this-namespace", "get_download_policy(&self.id()): %s" % [origin_summary(o) for o in ns], t["sp"])
     sb, sbi, st, cl = production_closures(f)
     fam = f.family(cl[1])
     evs = []
